@@ -510,6 +510,35 @@ def pushLoop (c : Ctl) (rs : List Nat) : Nat → Ctl × List Msg
 
 def pushOperators (c : Ctl) (rs : List Nat) : Ctl × List Msg := pushLoop c rs (2 * c.queue.length + 2)
 
+/-! ### competing end transitions on one started operator -/
+
+inductive RaceKind where
+  | cancel | replace | timeout | finish
+  deriving Repr, DecidableEq, Inhabited
+
+def RaceKind.letter : RaceKind → String
+  | .cancel => "c" | .replace => "r" | .timeout => "t" | .finish => "k"
+
+/-- what one participant does and whether it reports success: `Cancel()`, `Replace()`,
+    `CheckTimeout()` on an operator that is old enough, `CheckSuccess()` -/
+def raceStep (o : Op) : RaceKind → Op × Bool
+  | .cancel => o.to .canceled
+  | .replace => o.to .replaced
+  | .timeout => o.checkTimeout
+  | .finish => o.checkSuccess
+
+/-- the participants one after the other (every schedule of atomic transitions is such an order) -/
+def raceRun (o : Op) : List RaceKind → Op × List Bool
+  | [] => (o, [])
+  | k :: ks =>
+    let (o1, ok) := raceStep o k
+    let (o2, oks) := raceRun o1 ks
+    (o2, ok :: oks)
+
+/-- `Start()`, make it old, then the race -/
+def race (o : Op) (order : List RaceKind) : Op × List Bool :=
+  raceRun { (o.to .started).1 with startedOld := true } order
+
 /-! ### events -/
 
 /-- cluster.PutRegion -/
